@@ -315,6 +315,9 @@ pub struct World {
     pub seen_a_delay_req: Vec<u16>,
     /// arrival times of frames the daemon sent: (port 'a'/'b', message type, when)
     pub log: Vec<(char, u8, Instant)>,
+    /// when set: every frame the daemon sends on the master side, with the system time (ns) at which it was read
+    pub keep_frames: bool,
+    pub frames_b: Vec<(u128, RMsg)>,
 }
 
 impl World {
@@ -393,6 +396,8 @@ impl World {
             seen_b_by_type: [0; 16],
             seen_a_delay_req: vec![],
             log: vec![],
+            keep_frames: false,
+            frames_b: vec![],
         };
         w.establish()?;
         Ok(w)
@@ -439,6 +444,9 @@ impl World {
         while let Some(f) = self.b1.recv() {
             if let Ok(m) = decode(&f) {
                 if m.header.source.clock == self.own_identity {
+                    if self.keep_frames {
+                        self.frames_b.push((now_ns(), m.clone()));
+                    }
                     self.log.push(('b', m.header.msg_type, Instant::now()));
                     self.seen_b_by_type[(m.header.msg_type & 0xf) as usize] += 1;
                     if m.header.msg_type == T_DELAY_RESP {
@@ -1415,6 +1423,140 @@ pub fn case_c12(w: &mut World, t: &mut Tape) -> E2eOut {
     E2eOut { out, inconclusive: None }
 }
 
+// ---------------------------------------------------------------- C10 case (master-side messages of the real daemon)
+
+/// One case: the daemon's master port is watched for a generated window while generated Delay_Req frames
+/// (sequence ids, correction fields, requesters) are sent to it. The daemon's clock is the system clock here (virtual
+/// overlay, never steered in this case), so wire timestamps can be compared with the harness's own readings:
+/// Follow_Up: same sequence id as its Sync, exactly one per two-step Sync, preciseOrigin+correction within
+/// [arrival - 50 ms, arrival + 1 ms] of the Sync; Delay_Resp: echoes requester and sequence id, receiveTimestamp +
+/// correction - request correction within [send - 1 ms, send + 50 ms]; sequence ids of Announce, Sync increase by
+/// one; every frame bears the port's identity, domain 0, sdoId 0, version 2 and is at most 1024 bytes long.
+pub fn case_c10(w: &mut World, t: &mut Tape) -> E2eOut {
+    let mut out = CaseOut::new();
+    if !w.steady() {
+        let d = Instant::now() + Duration::from_millis(1500);
+        w.run_until(d);
+        if !w.steady() {
+            return E2eOut { out, inconclusive: Some(format!("daemon not in (Slave, Master) before the case: {:?}", w.port_states())) };
+        }
+    }
+    let window_ms = t.urange(700, 1800);
+    let nreq = t.urange(2, 10) as usize;
+    w.frames_b.clear();
+    w.keep_frames = true;
+    let master_port = PortId { clock: w.own_identity, port: (1 - w.slave_idx) as u16 + 1 };
+    let mut reqs: Vec<(u16, PortId, i64, u128)> = vec![];
+    let t0 = Instant::now();
+    for k in 0..nreq {
+        let until = t0 + Duration::from_millis(window_ms * (k as u64 + 1) / (nreq as u64 + 1));
+        w.run_until(until);
+        let src = PortId { clock: [0x00, 0x1b, 0x19, 0xe1, 0, 0, t.below(256) as u8, t.below(256) as u8], port: 1 + t.below(3) as u16 };
+        let seq = match t.below(3) {
+            0 => t.below(0x10000) as u16,
+            1 => *t.pick(&[0u16, 1, 0x7fff, 0x8000, 0xfffe, 0xffff]),
+            _ => k as u16,
+        };
+        let corr: i64 = match t.below(3) {
+            0 => 0,
+            1 => t.range(-1_000_000, 1_000_000) << 16,
+            _ => t.range(-(1 << 40), 1 << 40),
+        };
+        let mut m = RMsg::new(T_DELAY_REQ, src, seq, RBody::DelayReq { origin: RTs::default() });
+        m.header.correction = corr;
+        let sent_at = now_ns();
+        w.send_b(&m);
+        reqs.push((seq, src, corr, sent_at));
+    }
+    w.run_until(t0 + Duration::from_millis(window_ms));
+    let d = Instant::now() + Duration::from_millis(150);
+    w.run_until(d);
+    w.keep_frames = false;
+    let frames = std::mem::take(&mut w.frames_b);
+    let rendered = json!({"window_ms": window_ms, "delay_requests": reqs.iter().map(|r| format!("seq {} corr {} from {:02x?}/{}", r.0, r.2, &r.1.clock[4..], r.1.port)).collect::<Vec<_>>(), "frames_from_master_port": frames.len()});
+    out.render = rendered.clone();
+    if !w.alive() {
+        out.fail("daemon exited", rendered.to_string());
+        return E2eOut { out, inconclusive: None };
+    }
+    if !w.steady() {
+        return E2eOut { out, inconclusive: Some(format!("daemon left (Slave, Master): {:?}", w.port_states())) };
+    }
+    let ms = |ns: i128| ns as f64 / 1e6;
+    let mut last_seq: std::collections::HashMap<u8, u16> = Default::default();
+    let mut syncs: Vec<(u16, u128, bool)> = vec![];
+    let mut fups: Vec<(u16, i128)> = vec![];
+    for (at, m) in &frames {
+        let h = &m.header;
+        if h.source != master_port {
+            out.fail("daemon: frame on the master port's segment does not bear that port's identity", format!("{:?} (type {}) ; {}", h.source, h.msg_type, rendered));
+        }
+        if h.domain != 0 || h.major_sdo != 0 || h.minor_sdo != 0 || h.version != 2 {
+            out.fail("daemon: emitted frame bears a wrong domain / sdoId / version", format!("type {} domain {} sdo {}/{} version {}", h.msg_type, h.domain, h.major_sdo, h.minor_sdo, h.version));
+        }
+        if m.encode().len() > 1024 {
+            out.fail("daemon: emitted frame longer than 1024 bytes", format!("{}", m.encode().len()));
+        }
+        if matches!(h.msg_type, T_ANNOUNCE | T_SYNC) {
+            if let Some(prev) = last_seq.insert(h.msg_type, h.seq) {
+                if h.seq != prev.wrapping_add(1) {
+                    out.fail(format!("daemon: {} sequenceId does not increase by one", type_name(h.msg_type)), format!("{} after {} ; {}", h.seq, prev, rendered));
+                }
+            }
+        }
+        match &m.body {
+            RBody::Sync { .. } => syncs.push((h.seq, *at, h.flags[0] & 0x02 != 0)),
+            RBody::FollowUp { precise_origin } => fups.push((h.seq, ((precise_origin.total_ns() as i128) << 16) + h.correction as i128)),
+            RBody::DelayResp { receive, requesting } => {
+                match reqs.iter().find(|r| r.0 == h.seq && r.1 == *requesting) {
+                    None => out.fail("daemon: Delay_Resp does not echo requester and sequence id of any request", format!("seq {} requesting {:?} ; {}", h.seq, requesting, rendered)),
+                    Some(r) => {
+                        let got = ((receive.total_ns() as i128) << 16) + h.correction as i128 - r.2 as i128;
+                        let d = (got >> 16) - r.3 as i128;
+                        if !(-1_000_000..=50_000_000).contains(&d) {
+                            out.fail("daemon: Delay_Resp receiveTimestamp + correction is not the receive time plus the request's correction", format!("off by {:.3} ms from the time the request was sent (allowed -1..50 ms) ; seq {} corr_req {} corr_resp {} ; {}", ms(d), h.seq, r.2, h.correction, rendered));
+                        }
+                    }
+                }
+            }
+            _ => {}
+        }
+    }
+    // every Delay_Req answered exactly once
+    for r in &reqs {
+        let n = frames.iter().filter(|(_, m)| matches!(&m.body, RBody::DelayResp { requesting, .. } if *requesting == r.1) && m.header.seq == r.0).count();
+        if n != 1 {
+            out.fail("daemon: Delay_Req not answered by exactly one Delay_Resp", format!("{} responses for seq {} ; {}", n, r.0, rendered));
+        }
+    }
+    // Sync / Follow_Up pairing (the last Sync may still wait for its Follow_Up)
+    for (i, (seq, at, two_step)) in syncs.iter().enumerate() {
+        let mine: Vec<&(u16, i128)> = fups.iter().filter(|f| f.0 == *seq).collect();
+        if !*two_step {
+            continue;
+        }
+        if mine.len() > 1 || (mine.is_empty() && i + 1 < syncs.len()) {
+            out.fail("daemon: two-step Sync not followed by exactly one Follow_Up with its sequence id", format!("{} Follow_Ups for Sync {} ; {}", mine.len(), seq, rendered));
+        }
+        if let Some(f) = mine.first() {
+            let d = (f.1 >> 16) - *at as i128;
+            if !(-50_000_000..=1_000_000).contains(&d) {
+                out.fail("daemon: Follow_Up origin + correction is not the transmit time of its Sync", format!("off by {:.3} ms from the arrival of Sync {} (allowed -50..1 ms) ; {}", ms(d), seq, rendered));
+            }
+        }
+    }
+    for f in &fups {
+        if !syncs.iter().any(|s| s.0 == f.0) && syncs.first().map(|s| s.0 != f.0.wrapping_add(1)).unwrap_or(true) {
+            out.fail("daemon: Follow_Up without a Sync of that sequence id", format!("seq {} ; {}", f.0, rendered));
+        }
+    }
+    if !syncs.is_empty() && !reqs.is_empty() {
+        out.nontrivial = Some(hash_of(&rendered.to_string()));
+    }
+    out.label("daemon:master-side");
+    E2eOut { out, inconclusive: None }
+}
+
 // ---------------------------------------------------------------- worker / parent plumbing
 
 /// `vcheck E2E-WORKER <prop> <seed> <first> <count> <stride> [tape.json]`
@@ -1469,6 +1611,7 @@ pub fn worker_main(args: &[String]) -> i32 {
             "C19" => case_c19(&mut w, exporter.as_ref().unwrap(), &mut tape),
             "C17" => case_c17(&mut w, &mut tape),
             "C12" => case_c12(&mut w, &mut tape),
+            "C10" => case_c10(&mut w, &mut tape),
             _ => {
                 println!("{}", json!({"fatal": format!("no end-to-end case for {}", prop)}));
                 return 2;
